@@ -697,6 +697,8 @@ struct PeerConnectionInner {
 pub(crate) fn generate_sdes_key_params() -> String {
     let mut key_salt = [0u8; 30];
     rand::fill(&mut key_salt);
+    #[cfg(rustrtc_verif)]
+    crate::verif_hooks::fill_random(&mut key_salt);
     let encoded = BASE64_STANDARD.encode(key_salt);
     format!("inline:{}", encoded)
 }
@@ -5585,6 +5587,8 @@ fn default_origin() -> Origin {
         .duration_since(UNIX_EPOCH)
         .unwrap_or_default()
         .as_secs();
+    #[cfg(rustrtc_verif)]
+    let now = crate::verif_hooks::unix_millis() / 1000;
     origin.session_id = now;
     origin.session_version = now;
     if let Ok(ip) = get_local_ip() {
@@ -6596,6 +6600,8 @@ impl RtpSender {
         now: SystemTime,
         report_blocks: Vec<crate::rtp::ReportBlock>,
     ) -> SenderReport {
+        #[cfg(rustrtc_verif)]
+        let now = crate::verif_hooks::system_time_now();
         let duration = now.duration_since(UNIX_EPOCH).unwrap_or_default();
         let ntp_seconds = duration.as_secs().saturating_add(2_208_988_800);
         let ntp_fraction = (duration.subsec_nanos() as u64 * (1u64 << 32) / 1_000_000_000) as u32;
@@ -12901,5 +12907,18 @@ a=mid:0
         };
         assert!(extmap_value(crate::sdp::SDES_MID_URI).starts_with("3 "));
         assert!(!extmap_value(crate::sdp::ABS_SEND_TIME_URI).starts_with("3 "));
+    }
+}
+
+#[cfg(rustrtc_verif)]
+impl PeerConnection {
+    pub fn verif_dtls_transport(&self) -> Option<Arc<DtlsTransport>> {
+        self.inner.dtls_transport.lock().clone()
+    }
+    pub fn verif_sctp_transport(&self) -> Option<Arc<SctpTransport>> {
+        self.inner.sctp_transport.lock().clone()
+    }
+    pub fn verif_rtp_transport(&self) -> Option<Arc<RtpTransport>> {
+        self.inner.rtp_transport.lock().clone()
     }
 }
